@@ -1698,6 +1698,10 @@ impl Tree {
 
         self.get_mut(&to_remove)?.delete();
 
+        // The child moved one level up: recompute the depths of its subtree
+        let depth = self.get(&parent)?.depth + 1;
+        self.reset_depth_impl(&child, depth)?;
+
         Ok(())
     }
 
@@ -1782,6 +1786,9 @@ impl Tree {
                     self.get_mut(&parent)?.add_child(child, edge);
                     self.get_mut(&child)?.set_parent(parent, edge);
                     self.get_mut(&node_id)?.remove_child(&child)?;
+                    // The child moved one level down: recompute the depths of its subtree
+                    let depth = self.get(&parent)?.depth + 1;
+                    self.reset_depth_impl(&child, depth)?;
                 }
 
                 children.push(parent);
@@ -1891,6 +1898,11 @@ impl Tree {
         // Set new parent in child nodes
         self.get_mut(child1)?.set_parent(parent, edge1);
         self.get_mut(child2)?.set_parent(parent, edge2);
+
+        // The merged nodes moved one level down: recompute the depths of their subtrees
+        let depth = self.get(&parent)?.depth + 1;
+        self.reset_depth_impl(child1, depth)?;
+        self.reset_depth_impl(child2, depth)?;
 
         Ok(parent)
     }
